@@ -12,7 +12,7 @@ def check(ctx):
     cfgs = os.path.join(ctx.scratch, "c20_configs.ndjson")
     ctx.tlc("MC_Terminal", env={"VERIF_OUT": cfgs}, workers=8)
     tr = os.path.join(ctx.scratch, "c20_trace.ndjson")
-    r = ctx.vh(["c20-run", cfgs, tr] + (["wrap"] if thorough else []), timeout=1800)
+    r = ctx.vh(["c20-run", cfgs, tr, "wrap"], timeout=1800)      # wrap: 65540 consecutive frames of one terminal, sampled around the 16-bit wrap
     if r.returncode != 0:
         from checks import live_common as lc
         lc.crash_check(ctx, r.returncode, r.stderr, "c20-run")
@@ -24,9 +24,9 @@ def check(ctx):
     for e in events:
         if not e.get("bodyok") and e.get("bodynote"):
             ctx.cov.setdefault("body_notes", {})[e["bodynote"][:80]] = 1
-    ctx.cov["rule"] = ("MC_Terminal enumerates version x phone (boundary lengths, all zero, phones whose header-template checksum is 7E / 7D) x the 24 "
+    ctx.cov["rule"] = ("MC_Terminal enumerates version x phone (boundary lengths, all zero, twenty digits beyond 2^64-1, phones whose header-template checksum is 7E / 7D) x the 24 "
                        "default commands and checks SimFrameOk on the specification; for each configuration the real simulator generates the frames "
-                       "(plus custom bodies 0..1023 bytes; thorough: 65540 consecutive frames), which are decoded, parsed and re-encoded with the "
+                       "(plus custom bodies 0..1023 bytes and 65540 consecutive frames of one terminal), which are decoded, parsed and re-encoded with the "
                        "matching model type; ExpectedReply and the reply of a live server are compared with Replies!ReplyFrame by Trace_Terminal.")
     ctx.cov["exhaustive"] = True
     ctx.assumptions += ["phones are decimal and fit the field (the property's domain)",
